@@ -1,4 +1,5 @@
 import SeliumModel.Server.Registry
+import SeliumModel.Server.System
 import Driver.Util
 import Driver.Wire
 
@@ -122,9 +123,27 @@ def run (st : St) (t : List String) : String × St :=
     let h2 := handleStream h1.registry (some (.register .subscriber b))
     let h3 := handleStream h2.registry (some (.register .publisher a))
     let h4 := handleStream h3.registry (some (.register .publisher b))
+    -- what each subscriber is handed: the whole-server model (`Server/System.lean`: `handle_stream` composed with one
+    -- router per name) run on the events of the scenario — two subscribers, then per name a publisher with one message
+    -- and one batch frame, every router polled until it rests
+    let frames : Nat → List (Selium.Route.SAns Selium.Sink.RFrame) := fun k => [.item (.msg none k), .item (.other (50 + k))]
+    let polls : Name → List SEvent := fun n => List.replicate 4 (.pollPubsub n 1000 [])
+    let evs : List SEvent :=
+      [.openStream (some (.register .subscriber a)) { id := 0 } [], .openStream (some (.register .subscriber b)) { id := 0 } []] ++
+      polls a ++ polls b ++
+      [.openStream (some (.register .publisher a)) { id := 0 } (frames 1)] ++ polls a ++
+      [.openStream (some (.register .publisher b)) { id := 0 } (frames 2)] ++ polls b ++ polls a
+    let srv := sysExec evs
+    let text : Selium.Sink.RFrame → String := fun f =>
+      match f with
+      | .msg _ 1 => "from-a" | .msg _ 2 => "from-b" | .other 51 => "B:from-a" | .other 52 => "B:from-b" | _ => "?"
+    let gotOf : Name → Nat → String := fun n k =>
+      match ((srv.ps n).sinks ++ (srv.ps n).evicted).find? (·.id = k) with
+      | some c => if c.got.isEmpty then "-" else "+".intercalate (c.got.map text)
+      | none => "-"
     let shared := decide (a = b)
     (" ".intercalate [answerText h1.answer, answerText h2.answer, answerText h3.answer, answerText h4.answer] ++
-      (if shared then " a=from-a+B:from-a+from-b+B:from-b b=from-a+B:from-a+from-b+B:from-b" else " a=from-a+B:from-a b=from-b+B:from-b") ++ " probe=ok",
+      " a=" ++ gotOf a 0 ++ " b=" ++ (if shared then gotOf a 1 else gotOf b 0) ++ " probe=ok",
      { st with reg := h4.registry })
   | ["mute"] =>
     -- c17_lock_holder_never_blocked: no answer is sent while the lock is held, so a peer that takes no answer holds nobody up
